@@ -7,6 +7,7 @@ BASE = "for m in $(cat /w/out/gomods.txt); do MF=$(cd /repo/$m && . /w/out/goenv
 TRUST = ("go/packages + go/types + go/ssa (x/tools v0.29.0) build a faithful typed SSA of /repo's working tree; VTA call graph over-approximates dynamic dispatch inside the two packages; "
          "facts are 'passed on every path' (must) facts without kills; user callbacks, math/big, constbn and Go crypto are outside the analysis")
 
+CLOSED = "; plus closed tables generated from the reviewed tree and compared on every run (who writes each state field, who calls each state-writing function, which failure reasons each accept path can return, which events each function emits)"
 # id -> (technique, level text, design ref, note)
 CLAIMS = {
  "C01": ("inter-procedural must-pass-through (every verification step dominates akeHasFinished on both chains), who-may-write, operand-provenance/polarity of each AKE check by canonical value terms, constant checks of the DH group",
@@ -89,7 +90,7 @@ def main():
                 "engine": "otrcheck",
                 "level_claimed": {"category": "other", "text": text, "design_ref": ref},
                 "level_note": TRUST,
-                "technique": "static analysis: " + tech,
+                "technique": "static analysis: " + tech + CLOSED,
             })
         else:
             na.append({"property_id": pid, "reason": NA.get(pid, "no static check is registered for this property yet (see DESIGN.md §6); it is not claimed")})
